@@ -1,18 +1,18 @@
 CONSTANTS
-  TTLs <- T13
-  Horizon = 6
+  TTLs <- TLong
+  Horizon = 200000
   MaxChanges = 2
-  MaxQueries = 4
+  MaxQueries = 5
   SignedSet <- Bools
   ChildSet <- ChildLong
-  ChildTTLs <- TTLBoth
+  ChildTTLs <- TTLDay
   DeepSet <- OnlyF
   ValDelays <- NoDelay
   FloorWins = FALSE
   SelfRefReanchors = FALSE
   Ceil = 43200
-  Jumps <- NoJumps
-  RealTime = TRUE
+  Jumps <- JLong
+  RealTime = FALSE
   CeilOnCut = TRUE
   CeilOnStore = TRUE
 INIT Init
